@@ -395,7 +395,18 @@ class Machine(object):
         if not (tr and name and st) or callee.get("resolved"):
             return None
         head = type_head(st)
-        for imp in self.facts.impls_of(trait=tr, self_adt=head):
+        imps = self.facts.impls_of(trait=tr, self_adt=head)
+        if len(imps) > 1:
+            # a generic trait implemented several times for the type (Translator<A>, Translator<B>): the impl whose trait
+            # arguments are the call's (substituted) type arguments
+            targs = [t for t in (callee.get("targs") or []) if t != st]
+            pick = [i for i in imps if targs and all(("<" + t + ">") in (i.get("trait_str") or "") or ("<" + t + ",") in (i.get("trait_str") or "")
+                                                     or (", " + t + ">") in (i.get("trait_str") or "") for t in targs[:1])]
+            if len(pick) == 1:
+                imps = pick
+            elif len(pick) != 1:
+                return None      # decided later from the argument's run-time type
+        for imp in imps:
             for it in imp["items"]:
                 if it["name"] == name:
                     c = dict(callee)
@@ -514,7 +525,19 @@ class Machine(object):
             while isinstance(recv, MutRef):
                 recv = recv.get()
             if isinstance(recv, Adt):
-                for imp in self.facts.impls_of(trait=tr, self_adt=recv.path):
+                imps = self.facts.impls_of(trait=tr, self_adt=recv.path)
+                if len(imps) > 1 and len(args) > 1:
+                    # several impls of one generic trait for the receiver (Translator<A> and Translator<B>): the one
+                    # whose trait argument is the type of the first argument
+                    a1 = args[1]
+                    while isinstance(a1, MutRef):
+                        a1 = a1.get()
+                    if isinstance(a1, Adt):
+                        pick = [i for i in imps if ("<" + a1.path + ">") in (i.get("trait_str") or "") or
+                                ("<" + a1.path + "<") in (i.get("trait_str") or "")]
+                        if len(pick) == 1:
+                            imps = pick
+                for imp in imps:
                     for it in imp["items"]:
                         if it["name"] == callee.get("name") and it["path"] in self.facts.bodies:
                             return self.call_path(it["path"], args, callee)
